@@ -542,7 +542,7 @@ func main() {
 	kit.Silence()
 	r := vh.NewRun("C01", "exploration")
 	rawN := r.Pick(48, 160)
-	rounds := r.Pick(1, 4)
+	rounds := r.Pick(1, 15)
 	for round := 0; round < rounds; round++ {
 		for _, kind := range kit.AllKinds {
 			for _, regime := range []string{"immediate", "delay", "barrier"} {
